@@ -80,3 +80,16 @@ def run(ctx):
             c02.r02_3(ctx, wakes[0])
             c02.r02_4(ctx, wakes[0])
             c02.r02_5(ctx, wakes[0])
+
+
+def im_stream_typestate(ctx):
+    """the waker typestate of the eyeball-im poll functions only (shared with C05: "what is received does not depend on when or how
+    often the subscriber is polled" includes the subscriber that is polled by an executor - once, and then only when woken)."""
+    F = ctx.facts
+    if IM not in set(F.crates):
+        return
+    for f, sites in sorted(wakers.poll_fns(F, (IM,)), key=lambda x: x[0].key):
+        if f.path.startswith("reusable_box::") or "ReusableBoxRecvFuture" in f.path or "make_recv_future" in f.path:
+            continue
+        wakers.check_poll_fn(ctx, "R14.1", f, sites)
+        wakers.check_rearm(ctx, "R14.3", f, sites)
